@@ -125,6 +125,19 @@ def judge(ctx, cases, diffs, corr_name, shrink=None, escalate=None,
         found = False
         if escalate is not None:
             found = escalate()
+        elif getattr(ctx, "rerun", None) is not None and \
+                getattr(ctx, "search_rounds", 0) < (4 if ctx.tier == "quick" else 1):
+            # the search for a failing input (DESIGN 2.6): the same exploration again on fresh inputs
+            # (a new stream derived from the seed), a few rounds; the round that finds a violation of
+            # the property reports it with its input, the last one reports no-failing-input-found
+            import random
+            ctx.search_rounds = getattr(ctx, "search_rounds", 0) + 1
+            ctx.rng = random.Random(ctx.seed * 1000003 + ctx.search_rounds)
+            ctx.cleanup()
+            ctx.notes.append("correspondence '%s' differs (%d disagreements) and no explored input violates the "
+                             "property: search round %d on fresh inputs" % (corr_name, len(diffs), ctx.search_rounds))
+            ctx.rerun()
+            return
         if not found and not ctx.violations:
             c, i, a, b = diffs[0]
             cc = c
